@@ -99,18 +99,48 @@ class Gen:
                 out.append(self.value(f['type'], depth + 1))
         return out
 
+    def _has_append_array(self, t, seen=None):
+        """does a value of type t contain an array whose elements are handed over with Append?"""
+        seen = seen if seen is not None else set()
+        k = t['k']
+        if k == 'prim':
+            return False
+        if k == 'array':
+            et = t['elem']
+            if et['k'] == 'multimap' or (et['k'] == 'struct' and self.sch['structs'][et['id']].get('dict')):
+                return True
+            return self._has_append_array(et, seen)
+        key = (k, t['id'])
+        if key in seen:
+            return False
+        seen.add(key)
+        if k == 'multimap':
+            mm = self.sch['multimaps'][t['id']]
+            return self._has_append_array(mm['key'], seen) or self._has_append_array(mm['value'], seen)
+        return any(self._has_append_array(f['type'], seen) for f in self.sch['structs'][t['id']]['fields'])
+
     def mutate(self, t, v, depth=0):
         """a value close to v: most of it kept, some parts changed"""
         r = self.rng
         k = t['k']
-        if v is None or r.chance(1, 12):
+        if v is None or (r.chance(1, 12) and not self._has_append_array(t)):
             return self.value(t, depth)
         if k == 'prim':
             return self.prim(t['p'])
         if k == 'array':
             v = list(v)
+            et = t['elem']
+            if et['k'] == 'multimap' or (et['k'] == 'struct' and self.sch['structs'][et['id']].get('dict')):
+                # elements handed over with Append: only extension / truncation between records
+                # (clearing and re-appending inside one record is the known finding C01-array-regrow)
+                c = r.below(3)
+                if c == 0 and v:
+                    return v[:r.below(len(v) + 1)]
+                if c == 1 and depth < self.max_depth:
+                    return v + [self.value(et, depth + 1) for _ in range(1 + r.below(3))]
+                return v
             c = r.below(6)
-            if c == 0:
+            if c == 0 and not self._has_append_array(t):
                 return self.value(t, depth)
             if c == 1 and v:
                 v = v[:r.below(len(v) + 1)]
@@ -124,7 +154,7 @@ class Gen:
             mm = self.sch['multimaps'][t['id']]
             v = [list(x) for x in v]
             c = r.below(8)
-            if c == 0:
+            if c == 0 and not self._has_append_array(t):
                 return self.value(t, depth)
             if c == 1 and v:
                 v = v[:r.below(len(v) + 1)]
@@ -140,7 +170,7 @@ class Gen:
             return v
         st = self.sch['structs'][t['id']]
         if st['oneof']:
-            if r.chance(1, 3) or v[0] == 0:
+            if (r.chance(1, 3) and not self._has_append_array(t)) or v[0] == 0:
                 return self.value(t, depth)
             ft = st['fields'][v[0] - 1]['type']
             return [v[0], self.mutate(ft, v[1], depth + 1)]
@@ -188,7 +218,7 @@ def gen_history(sch, root, rng, nrec, big=False):
             ops.append({'op': 'f'})
         if rng.chance(1, 8):
             pass                      # identical record again
-        elif rng.chance(1, 10):
+        elif rng.chance(1, 10) and not g._has_append_array(t):
             cur = g.value(t)
         else:
             cur = g.mutate(t, cur)
